@@ -82,6 +82,7 @@ func rootLocal(f *eng.Fn, e ast.Expr) *types.Var {
 func runC01(p *eng.Prog, r *eng.Report, tier string) {
 	c := &cx{p, r, tier}
 	negotiatorMaskFromFeatures(c, "C01.23")
+	newLayerOnlyAtRestart(c, "C01.24")
 	callerSlicesNotRewritten(c, "C01.16", negSet(c, "C01.16"))
 	depthCountersDoNotWrap(c, "C01.20")
 	// C01.21 "a restart always begins with a fresh stream header": what Expect
